@@ -664,19 +664,32 @@ fill_yly_eastr(
 				continue;
 			}
 		}
-		if (!(yd = easter_get_yday(y))) {
-			continue;
-		} else if (!(yd += offs) || yd > 366) {
-			/* huh? */
-			continue;
-		} else if (!(md = yd_to_md(y, yd)).m) {
-			continue;
-		} else if (!md_match_p(md, m, d)) {
-			/* can't use this one, user wants it masked */
-			continue;
+		/* the offset may carry us into Y from the easter before or after */
+		for (int dy = -1; dy <= 1; dy++) {
+			const int ndiy = 365 + !(y % 4U);
+			int doy;
+
+			if (!(yd = easter_get_yday(y + dy))) {
+				continue;
+			}
+			doy = (int)yd + offs;
+			if (dy < 0) {
+				doy -= 365 + !((y - 1U) % 4U);
+			} else if (dy > 0) {
+				doy += ndiy;
+			}
+			if (doy <= 0 || doy > ndiy) {
+				/* not in Y */
+				continue;
+			} else if (!(md = yd_to_md(y, doy)).m) {
+				continue;
+			} else if (!md_match_p(md, m, d)) {
+				/* can't use this one, user wants it masked */
+				continue;
+			}
+			/* otherwise it's looking good */
+			ass_bi383(cand, pack_cand(md.m, md.d));
 		}
-		/* otherwise it's looking good */
-		ass_bi383(cand, pack_cand(md.m, md.d));
 	}
 	return;
 }
